@@ -432,6 +432,24 @@ func (st *State) eqCond(a, b Val, x *ssa.BinOp) *Cond {
 		if a.K == KErr && b.K == KErr && known(ka) && known(kb) {
 			return &Cond{Op: CConst, V: ka == kb && strings.HasPrefix(ka, "@")}
 		}
+		// a nil error equals no sentinel
+		if a.K == KErr && b.K == KErr {
+			isNil := func(v Val) bool {
+				if v.ErrNil == Yes {
+					return true
+				}
+				if v.Sym != "" {
+					if n, ok := st.Preds["nil:"+v.Sym]; ok && n {
+						return true
+					}
+				}
+				return false
+			}
+			// (ka, kb are sorted and no longer follow a, b)
+			if (isNil(a) || isNil(b)) && (strings.HasPrefix(ka, "@") || strings.HasPrefix(kb, "@")) && ka != kb {
+				return &Cond{Op: CConst, V: false}
+			}
+		}
 		return &Cond{Op: CPred, Key: "eq:" + ka + "=" + kb}
 	}
 	switch other.K {
@@ -1759,6 +1777,19 @@ func (st *State) writerCall(x *ssa.Call, name string, args []Val, resName string
 				// batch created over the very writer it passes is a structural obligation of its own (layout: batch-param).
 				if pw := st.batchParamWriter(args[0].O.ID); pw != nil {
 					w = pw
+				} else if bt, isP := rt.(*types.Pointer); isP {
+					// no writer parameter to identify it with: the writer is whatever the batch's own field designates — a pointee
+					// of the parameter like any other, bound to the caller's writer when the summary is applied
+					if sty, isS := bt.Elem().Underlying().(*types.Struct); isS {
+						for i := 0; i < sty.NumFields(); i++ {
+							if fld := sty.Field(i); fld.Name() == "w" && isWriterPtr(fld.Type()) {
+								pv := Val{K: KPtr, O: args[0].O, Sym: "w"}
+								if lv := st.load(st.asAddr(pv, types.NewPointer(fld.Type()))); lv.K == KPtr && lv.O != nil {
+									w = lv.O
+								}
+							}
+						}
+					}
 				}
 			}
 		}
